@@ -887,7 +887,30 @@ def rule_cycle_settles(repo):
     return rule_watch(repo)
 
 
-RULES = [rule_wiring, rule_grant, rule_siblings, rule_options, rule_clocking, rule_clocking_ffset,
+def rule_cycle_loop_repeats(repo):
+    """with the arbiter inside a block-level cycle (one control block writes reqs / en and reads grants) the grants follow the
+    requests only if the generated fixed-point loop repeats while ANY watched signal changed, under every scheduler that
+    generates one -- decided by C11 (R-C11-template)"""
+    from rules.c11 import rule_template
+    return rule_template(repo)
+
+
+def rule_request_slices_ordered(repo):
+    """request inputs wired from bits / sub-ranges of a vector that update blocks write in chunks: the net block that feeds the
+    arbiter runs after the blocks computing the vector only if a read slice overlapping a different written slice yields a
+    writer-before-reader edge -- decided by C02 (R-C02-pairing)"""
+    from rules.c02 import rule_pairing
+    return rule_pairing(repo)
+
+
+def rule_eval_comb_is_the_comb_schedule(repo):
+    """set inputs / sim_eval_combinational() / sample grants: under every pass group the evaluation runs exactly the
+    combinational schedule (all of it, nothing else) -- decided by C01 (R-C01-agree)"""
+    from rules.c01 import rule_agree
+    return rule_agree(repo)
+
+
+RULES = [rule_cycle_loop_repeats, rule_request_slices_ordered, rule_eval_comb_is_the_comb_schedule, rule_wiring, rule_grant, rule_siblings, rule_options, rule_clocking, rule_clocking_ffset,
          rule_slice_nets_collected, rule_slice_nets_driven, rule_late_connections, rule_pointer_flipped,
          rule_installed_late, rule_cycle_settles]
 THOROUGH_RULES = [rule_grant_larger]
